@@ -24,6 +24,9 @@ THEOREMS = [
     "C11_restored_ordered",
     "C11_restored_ordered_repaired",
     "C11_order_witness",
+    "C11_no_trigger_state",
+    "C11_no_trigger_state_repaired",
+    "C11_allof_stale_witness",
     "C11_running_target_refused",
     "C11_refused_unchanged",
     "C11_automate_restored",
@@ -335,6 +338,12 @@ def _derive_obs(sc, t, parents, exec_log):
     return out
 
 
+def nodes_c11_out(node):
+    from . import nodes_c11
+
+    return nodes_c11.out_channel(node)
+
+
 def _if_class():
     from pyiron_workflow.nodes.standard import If
 
@@ -365,8 +374,12 @@ def run_impl(case):
     from . import nodes
     from .execsim import term_str
 
+    # identical graphs built before (and kept alive): which of several independent nodes a pull handles first
+    # follows the iteration order of sets of node objects, i.e. object ids
+    junk = [build(case) for _ in range(int(case.get("replica", 0)))]
     sc = build(case)
-    for g in case.get("fails", []):
+    fails_now = set(case.get("fails", []))
+    for g in fails_now:
         fid = case["fid"].get(str(g))
         if fid is not None:
             nodes.FAIL[fid] = {0}
@@ -389,8 +402,23 @@ def run_impl(case):
         "slots": live_slots(sc),
     }
     recs = []
+    history = any(isinstance(st[0], str) for st in case["pulls"])
+    edits = []
     try:
-        for t, parents in case["pulls"]:
+        for step in case["pulls"]:
+            if isinstance(step[0], str):
+                # the user edits the graph between two pulls
+                if step[0] == "repair":
+                    nodes.FAIL.clear()
+                    fails_now = set()
+                    for n in sc.node.values():
+                        n.failed = False
+                elif step[0] == "edge":
+                    _, dst, slot, src = step
+                    sc.node[dst].inputs[slot].connect(nodes_c11_out(sc.node[src]))
+                edits.append(list(step))
+                continue
+            t, parents = step
             before = snapshot(sc)
             vals_before = _values(sc)
             nodes.CALL_LOG.clear()
@@ -412,6 +440,10 @@ def run_impl(case):
                 "hits": list(ins.hits),
                 "calls": [c[0] for c in nodes.CALL_LOG],
                 "obs": _derive_obs(sc, t, bool(parents), ins.exec_log),
+                "edits": edits,
+                "deps": live_deps(sc),
+                "slots": live_slots(sc),
+                "fails": sorted(fails_now),
                 "before": before,
                 "after": snapshot(sc),
                 "vals_before": vals_before,
@@ -420,9 +452,11 @@ def run_impl(case):
                 "out": term_str(_single_out(sc.node[t])),
             }
             recs.append(rec)
-            if rec["outcome"] != "ok":
+            edits = []
+            if rec["outcome"] != "ok" and not history:
                 break
     finally:
+        del junk
         if pool is not None:
             pool.shutdown(wait=False, cancel_futures=True)
     obs = []
@@ -440,6 +474,8 @@ def run_impl(case):
     stats["macro_targets"] = sum(1 for r in recs if r["t"] in sc.composites)
     stats["via_call"] = sum(1 for r in recs if r["parents"] and case.get("call"))
     stats["running_flags"] = len(case.get("running", []))
+    stats["histories_fail_repair_repull"] = int(history)
+    stats["replica>0"] = int(bool(case.get("replica")))
     stats["conn_list_order_changed_sets_equal"] = sum(
         1 for r in recs if r["before"]["conns"] != r["after"]["conns"]
         and all(set(r["before"]["conns"].get(c, [])) == set(r["after"]["conns"].get(c, []))
@@ -517,20 +553,24 @@ def model_input(case, impl):
         lines.append("exec " + " ".join(map(str, case["exec"])))
     if case.get("running"):
         lines.append("running " + " ".join(map(str, case["running"])))
-    # a macro that is pulled over as a sibling runs as one unit; whether its inside raises (that depends on its
-    # own wiring and starting nodes, C09's subject) is observed: it is marked failed afterwards
-    fl = set(case.get("fails", []))
-    if impl["recs"]:
-        last = impl["recs"][-1]
-        anc = set(_levels(last["t"], True, _ik(w["parent"]))) - {last["t"]}
-        fl |= {g for g in last["after"]["failed"] if g in w["composites"] and g not in anc
-               and g not in last["before"]["failed"]}
-    if fl:
-        lines.append("fails " + " ".join(map(str, sorted(fl))))
     for g, v in sorted((int(g), v) for g, v in w["ifs"].items()):
         lines.append(f"truth {g} {int(v)}")
     lines.extend(case.get("raw", []))  # malformed lines: the driver must refuse each with `bad-op`
+    cur_deps = {int(g): list(d) for g, d in w["deps"].items()}
     for r in impl["recs"]:
+        # edits between two pulls: cleared `failed` flags, new data connections
+        if any(e[0] == "repair" for e in r.get("edits", [])):
+            lines.append("unfail " + " ".join(map(str, range(w["n"]))))
+        for g, d in sorted((int(g), list(d)) for g, d in r["deps"].items()):
+            if d != cur_deps.get(g, []):
+                lines.append((f"deps {g} " + " ".join(map(str, d))).rstrip())
+                cur_deps[g] = d
+        # what raises in this pull; a macro that is pulled over as a sibling runs as one unit: whether its inside
+        # raises (that depends on its own wiring and starting nodes, C09's subject) is observed
+        anc = set(_levels(r["t"], True, _ik(w["parent"]))) - {r["t"]}
+        fl = set(r["fails"]) | {g for g in r["after"]["failed"] if g in w["composites"] and g not in anc
+                                and g not in r["before"]["failed"]}
+        lines.append(("fails " + " ".join(map(str, sorted(fl)))).rstrip())
         # the branch an `If` takes is data (a condition fed by another `If` may be False): observed
         for g in sorted(int(g) for g in w["ifs"]):
             v = _get(r["vals_after"]["out"], g)
@@ -771,7 +811,8 @@ def gen_scene(rng, max_leaf=4, clean=None, fault=None):
     case["post"] = post
     case["ngid"] = ids.g
     case["_meta"] = {"clean": clean, "fault": fault, "leaves": all_leaves, "levels": [m["leaves"] for m in metas],
-                     "macros": [m["macro"] for m in metas if m["macro"] is not None]}
+                     "macros": [m["macro"] for m in metas if m["macro"] is not None],
+                     "hidden": [[h for h in m["hidden"] if str(h) in ids.fid] for m in metas]}
     return case
 
 
@@ -851,6 +892,17 @@ def gen_cases(rng, tier):
                     pulls.append([rng.choice(leaves), int(rng.random() < 0.5)])
             elif rng.random() < 0.2:
                 pulls.append([rng.choice(leaves), int(rng.random() < 0.5)])
+            sc["replica"] = 0
+            if fault == "fails" and not sc["cache"] and rng.random() < 0.6:
+                # history: the pull fails half-way, the user repairs (and perhaps puts two independent nodes in
+                # series), pulls again; on a graph built after a few identical ones (other object ids)
+                pulls = [[t, int(par)], ["repair"]]
+                lvl = next((h for h in sc["_meta"]["hidden"] if t in h), None)
+                if lvl and len(lvl) >= 2 and rng.random() < 0.7:
+                    i, j = sorted(rng.sample(range(len(lvl)), 2))
+                    pulls.append(["edge", lvl[j], rng.choice("abc"), lvl[i]])
+                pulls.append([t, int(par)])
+                sc["replica"] = rng.randrange(6)
             yield with_pulls(sc, pulls)
             if tier == "thorough":
                 if fault == "exec":
@@ -950,7 +1002,7 @@ def _ref_value(w, rec, levels, allowed, fids, closures):
     """the term the target must return: the wrapped functions composed in plain Python along the data
     connections (first connection holding data wins; an unconnected input keeps its value; a macro that
     runs as one unit is a black box whose observed output is taken as given)"""
-    slots, links = _ik(w["slots"]), w["links"]
+    slots, links = _ik(rec.get("slots") or w["slots"]), w["links"]
     comps, ifs = set(w["composites"]), _ik(w["ifs"])
     vb, va = rec["vals_before"], rec["vals_after"]
     vin, vout_after = _ik(vb["in"]), _ik(va["out"])
@@ -998,7 +1050,7 @@ def _ref_value(w, rec, levels, allowed, fids, closures):
 
 def _oracle_rec(case, w, rec, fids):
     out = []
-    parent, deps = _ik(w["parent"]), _ik(w["deps"])
+    parent, deps = _ik(w["parent"]), _ik(rec.get("deps") or w["deps"])  # the data connections at the time of this pull
     comps, ifs = set(w["composites"]), _ik(w["ifs"])
     t, par, outcome = rec["t"], rec["parents"], rec["outcome"]
     levels = _levels(t, par, parent)
@@ -1077,7 +1129,7 @@ def _oracle_rec(case, w, rec, fids):
     else:
         # a pull of acyclic, executor-free, single-scope data in which nothing raises has to return
         # (macros run as one unit are left out: what happens inside them is not this property's subject)
-        inner_fail = set(case.get("fails", []))
+        inner_fail = set(rec["fails"] if "fails" in rec else case.get("fails", []))
         if (refusing is None and not out and not (allowed & comps) and not (allowed & inner_fail)
                 and not ((set(rec["before"]["failed"]) | set(case.get("running", []))) & (allowed | drivers))):
             fail("unexpected-failure", f"nothing upstream is cyclic, on an executor, foreign or failing, yet: {rec['err']}")
@@ -1217,6 +1269,20 @@ def corpus():
     yield {**_mk("wf", chain3, 4, pulls=[[2, 0]]), "running": [0]}
     yield {**_mk("wf", chain3, 4, pulls=[[2, 1]]), "running": [2]}
     yield {**_mk("wf", chain3, 4, pulls=[[2, 0]]), "running": [3]}
+    # history on a diamond 0 -> {1, 2} -> 3 -> 4: one branch raises, repair, the branches go in series, re-pull;
+    # parentless / in a workflow / in a macro, either branch failing, on the 1st..4th identical graph
+    dia = {"nodes": [_term(0), _term(1), _term(2), _term(3), _term(4)],
+           "edges": [[1, "a", 0], [2, "a", 0], [3, "a", 1], [3, "b", 2], [4, "a", 3]]}
+    for bad, other in ((1, 2), (2, 1)):
+        for rep_ in range(8):
+            hist = [[4, 0], ["repair"], ["edge", other, "b", bad], [4, 0]]
+            d = dia if rep_ % 2 else {**dia, "nodes": dia["nodes"][::-1]}  # creation order of the nodes varies too
+            yield {**_mk("none", d, 5, fails=[bad], pulls=hist), "replica": rep_}
+        yield {**_mk("wf", dia, 6, fails=[bad], pulls=[[4, 0], ["repair"], ["edge", other, "b", bad], [4, 1]]),
+               "replica": 1}
+        yield {**_mk("none", {"nodes": [{"gid": 5, "kind": "macro", "inner": {**dia, "xin": [[0, "a"]], "out": 4}}],
+                              "edges": []}, 6, fails=[bad],
+                     pulls=[[4, 0], ["repair"], ["edge", other, "b", bad], [4, 1]]), "replica": 2}
     # caching on: the second and third pull meet the caches the first one filled; nothing outside may run
     yield {**_mk("wf", chain3, 4, post={"signals": [["rr", 0, 2]], "dagwire": [3]}, pulls=[[2, 0], [2, 0], [1, 1]]),
            "cache": True}
@@ -1279,7 +1345,10 @@ def shrink_candidates(case):
             yield {**c, "post": {**post, key: {a: b for a, b in post[key].items() if a != k}}}
     for i in range(len(c["fails"])):
         yield {**c, "fails": c["fails"][:i] + c["fails"][i + 1:]}
-    targets = {p[0] for p in c["pulls"]}
+    targets = {p[0] for p in c["pulls"] if not isinstance(p[0], str)} | {
+        x for p in c["pulls"] if p[0] == "edge" for x in (p[1], p[3])}
+    if c.get("replica"):
+        yield {**c, "replica": 0}
     # leaves nobody mentions
     for _owner, spec in spec_levels(c):
         for n in spec["nodes"]:
